@@ -50,3 +50,45 @@ package bundle
 //@   loop 0:
 //@     invariant fresh(requests)
 //@     invariant forall x int :: 0 <= x && x < len(requests) ==> uint64(requests[x].Offset - respSectionOffset) + requests[x].Length <= respso.Length
+
+//@ func decodeSectionLengthsCBOR
+//@   props C05 C10
+//@   returns (sos, err)
+//@   ensures[names-distinct] err == nil ==> forall i int, j int :: 0 <= i && i < j && j < len(sos) ==> sos[i].Name != sos[j].Name
+//@   ensures err == nil ==> fresh(sos)
+//@   assigns nothing
+//@   loop 0:
+//@     invariant fresh(sos) && dec != nil && dec.r != nil
+//@     invariant forall a int, b int :: 0 <= a && a < b && b < len(sos) ==> sos[a].Name != sos[b].Name
+
+//@ func parsePrimarySection
+//@   props C05 C10
+//@   assigns nothing
+//@ func parseManifestSection
+//@   props C05 C10
+//@   assigns nothing
+
+// loadMetadata: every index entry it returns lies inside the input (no
+// 64-bit wrap), every section it parses lies inside the input, and sections
+// it does not know are stepped over.
+//@ func loadMetadata
+//@   props C05 C10
+//@   bounds strict
+//@   returns (m, err)
+//@   ensures[requests-in-file] err == nil ==> m != nil && (forall i int :: 0 <= i && i < len(m.requests) ==> m.requests[i].Offset + m.requests[i].Length <= len(bs))
+//@   assigns nothing
+//@   loop 0:
+//@     invariant[offset-tracks-table] offset == sectionsStart + secSum(arr(sos), off(sos), rangeindex + 1)
+//@     invariant[offset-in-file] offset <= len(bs)
+//@     invariant -1 <= rangeindex && (rangeindex < len(sos) || len(sos) == 0)
+
+//@ func loadResponse
+//@   props C05 C10
+//@   bounds strict
+//@   requires req.Offset + req.Length <= len(bs)
+//@   assigns nothing
+
+//@ func Read
+//@   props C05 C10
+//@   requires r != nil
+//@   assigns spos(r)
